@@ -648,7 +648,9 @@ func (c *vC14Case) check() {
 				tol = append(tol, vC14Tol{vC14SigLinger, cur}, vC14Tol{vC14SigResurface, old})
 			}
 			if v.hasGhosts() {
-				tol = append(tol, vC14Tol{vC14SigGhost, vC14SetOf(v.pairs(p, nameOK, keyOK, true))})
+				// a ghost series is yielded by some of the shard's raw iterators and not by others, so
+				// under the set algebra of a predicate it can surface whether or not it satisfies it
+				tol = append(tol, vC14Tol{vC14SigGhost, vC14SetOf(v.pairs(nil, nameOK, keyOK, true))})
 			}
 			return tol
 		}
@@ -732,7 +734,7 @@ func (c *vC14Case) check() {
 					}
 					var tol []vC14Tol
 					if v.hasGhosts() {
-						tol = append(tol, vC14Tol{vC14SigGhost, vC14SetOf(v.series(m, p, true))})
+						tol = append(tol, vC14Tol{vC14SigGhost, vC14SetOf(v.series(m, nil, true))})
 					}
 					c.within(sig, fmt.Sprintf("shard %d MeasurementSeriesByExprIterator(%s, %s)", ids[0], m, p.String()), got, v.series(m, p, false), tol...)
 				}
@@ -748,7 +750,7 @@ const vC14Rule = "bed I: inmem and tsi1 stores in lock-step, 1-2 shards, tsi1 lo
 func vC14Run(rt *rapid.T, st *verifkit.Stats) {
 	cfg := vDualCfg{
 		NShards:    rapid.IntRange(1, 2).Draw(rt, "nshards"),
-		LogSize:    rapid.SampledFrom([]int{1, 1, 64, 300, 1500, vC14BigLog}).Draw(rt, "logsize"),
+		LogSize:    rapid.SampledFrom([]int{1, 1, 1, 64, 64, 300, 1500, vC14BigLog}).Draw(rt, "logsize"),
 		Partitions: rapid.SampledFrom([]uint64{1, 1, 1, 2, 8}).Draw(rt, "partitions"),
 		CacheSize:  rapid.SampledFrom([]int{0, 100, 100}).Draw(rt, "idsetcache"),
 	}
